@@ -54,6 +54,29 @@ func (c *Ctx) effectiveTop(f *ssa.Function, depth int) *ssa.Function {
 	return owner
 }
 
+// partOf: fn is the anchored function `anchor`, or an unexported helper (function or method) that is not itself an
+// anchor and is called only from functions that are part of it (extracting a block into a private helper does not
+// move the block out of the operation).
+func (c *Ctx) partOf(fn *ssa.Function, anchor string, depth int) bool {
+	fn = top(fn)
+	if c.Key(fn) == anchor {
+		return true
+	}
+	if depth > 3 || fn.Object() == nil || fn.Object().Exported() || namedAnchors[c.Key(fn)] || len(c.valueUses(fn)) > 0 {
+		return false
+	}
+	cs := c.callersOf(fn)
+	if len(cs) == 0 {
+		return false
+	}
+	for _, ci := range cs {
+		if !c.partOf(ci.Parent(), anchor, depth+1) {
+			return false
+		}
+	}
+	return true
+}
+
 // allStmts includes nested eager-load statements.
 func (es *entShape) All() []*Stmt {
 	var out []*Stmt
